@@ -15,15 +15,37 @@ NSCFG = _P // 1000       # 0 one shared map, 1 declared on a child only, 2 re-de
 MAXLEN = bound(2)
 
 
+class HarnessLimit(Exception):
+    """The code under test did something with the JSON text that the contract stub cannot follow."""
+
+
+class JDoc(str):
+    """An opaque JSON document: a str (so that type checks and str methods keep working) carrying its payload."""
+    def __new__(cls, payload):
+        self = str.__new__(cls, "<json document>")
+        self.payload = payload
+        return self
+
+    def __eq__(self, other):
+        return isinstance(other, JDoc) and self.payload == other.payload
+
+    def __ne__(self, other):
+        return not self.__eq__(other)
+
+    __hash__ = None
+
+
 class FakeJson:
     """json by its contract: loads(dumps(x)) == x for str-keyed dicts / lists / str / None; dumps is deterministic."""
     @staticmethod
     def dumps(obj, indent=None, **kw):
-        return ("JSON", _copy.deepcopy(obj))
+        return JDoc(_copy.deepcopy(obj))
 
     @staticmethod
     def loads(s):
-        return _copy.deepcopy(s[1])
+        if not isinstance(s, JDoc):
+            raise HarnessLimit("the JSON text was post-processed before parsing; the json contract stub cannot follow that")
+        return _copy.deepcopy(s.payload)
 
 
 metapype_io.json = FakeJson
@@ -103,8 +125,11 @@ def h_roundtrip(val: Optional[str], where: int) -> str:
     text = metapype_io.to_json(root)
     if snap(root) != before:
         return "to_json modified the tree"
-    fresh()
-    back = metapype_io.from_json(text)
+    Node.store.clear()
+    try:
+        back = metapype_io.from_json(text)
+    except HarnessLimit as e:
+        return "HARNESS-LIMIT: %s" % e
     if snap(back) != before:
         return "reloaded tree differs: %r vs %r" % (snap(back), before)
     r = snap_links(back)
@@ -133,8 +158,11 @@ def h_legacy(val: Optional[str], where: int) -> str:
     root = _tree(val, where)
     before = _legacy_snap(root)
     text = mp_io.to_json(root)
-    fresh()
-    back = mp_io.from_json(FakeJson.loads(text))
+    Node.store.clear()
+    try:
+        back = mp_io.from_json(FakeJson.loads(text))
+    except HarnessLimit as e:
+        return "HARNESS-LIMIT: %s" % e
     if _legacy_snap(back) != before:
         return "legacy codec: reloaded tree differs: %r vs %r" % (_legacy_snap(back), before)
     r = snap_links(back)
@@ -145,8 +173,8 @@ def h_legacy(val: Optional[str], where: int) -> str:
     # upgrade the legacy document and load it with the current codec
     doc = FakeJson.loads(text)
     to_20210209(doc)
-    fresh()
-    up = metapype_io.from_json(("JSON", doc))
+    Node.store.clear()
+    up = metapype_io.from_json(JDoc(doc))
     if _legacy_snap(up) != before:
         return "upgraded legacy document loads as a different tree: %r vs %r" % (_legacy_snap(up), before)
     for n in nodes(up):
